@@ -37,6 +37,39 @@ EQUIV = [
      "            buf[0..end].fill(0);\n            buf[end - 1] = padding;"),
     ("app-data-end-local", "src/app.rs", "&self.data[12..self.data.len() - self.padding().unwrap_or(0) as usize]",
      "{ let end = self.data.len() - self.padding().map_or(0, |p| p as usize); &self.data[12..end] }"),
+    ("sdes-while-flip", "src/sdes.rs", "            while offset < end {", "            while end > offset {"),
+    ("sdes-zero-skip-order", "src/sdes.rs", "while offset < data.len() && offset % 4 != 0 && data[offset] == 0 {",
+     "while offset % 4 != 0 && offset < data.len() && data[offset] == 0 {"),
+    ("sdes-aligned-mod", "src/sdes.rs", "        if pad_to_4bytes(offset) != offset {", "        if offset % 4 != 0 {"),
+    ("sdes-length-loop", "src/sdes.rs", """        let len = Self::MIN_LEN
+            + self
+                .items
+                .iter()
+                .fold(0, |acc, item| acc + 2 + item.length());
+        pad_to_4bytes(len + 1)""", """        let mut len = Self::MIN_LEN;
+        for item in self.items.iter() {
+            len += 2 + item.length();
+        }
+        pad_to_4bytes(len + 1)"""),
+    ("bye-ssrcs-double-slice", "src/bye.rs", "self.data[4..4 + self.count() as usize * 4]", "self.data[4..][..self.count() as usize * 4]"),
+    ("bye-writer-loop-idx", "src/bye.rs", """            end += 4;
+            buf[idx..end].copy_from_slice(&ssrc.to_be_bytes());
+            idx = end;""", """            buf[idx..idx + 4].copy_from_slice(&ssrc.to_be_bytes());
+            idx += 4;
+            end = idx;"""),
+    ("header-len-two-stores", "src/utils.rs", "        buf[2..4].copy_from_slice(&((len / 4 - 1) as u16).to_be_bytes());",
+     "        let l = (len / 4 - 1) as u16;\n        buf[2] = (l >> 8) as u8;\n        buf[3] = (l & 0xff) as u8;"),
+    ("padding-cmp-flip", "src/utils.rs", "if padding == 0 || padding as usize > packet.len() - P::MIN_PACKET_LEN {",
+     "if padding == 0 || packet.len() - P::MIN_PACKET_LEN < padding as usize {"),
+    ("compound-header-room", "src/compound.rs", "            if data.len() < offset + Unknown::MIN_PACKET_LEN {",
+     "            if data.len() - offset < Unknown::MIN_PACKET_LEN {"),
+    ("compound-next-flip", "src/compound.rs", "        if self.offset >= self.data.len() {", "        if self.data.len() <= self.offset {"),
+    ("nack-idx-bound", "src/feedback/nack.rs", "            if idx + 3 >= self.parser.data.len() {", "            if idx + 4 > self.parser.data.len() {"),
+    ("nack-mask-test", "src/feedback/nack.rs", "                if (mask & 0x1) > 0 {", "                if mask & 1 == 1 {"),
+    ("nack-enc-ge1", "src/feedback/nack.rs", "                if diff > 0 {", "                if diff >= 1 {"),
+    ("nack-encode-shifts", "src/feedback/nack.rs", """        ((base & 0xff00) >> 8) as u8,
+        (base & 0xff) as u8,""", """        (base >> 8) as u8,
+        base as u8,"""),
 ]
 
 # (name, file, old, new, properties expected to report) — hand-written breaking edits (the sub-agent ones are in seeded/)
